@@ -81,6 +81,7 @@ func (c *Ctx) freshReturning() map[*types.Func]bool {
 		n, ok := types.Unalias(tv.Type).(*types.Named)
 		return ok && lval != nil && n.Obj() == lval.Obj()
 	}
+	pass := c.passthroughFns()
 	changed := true
 	for changed {
 		changed = false
@@ -122,8 +123,14 @@ func (c *Ctx) freshReturning() map[*types.Func]bool {
 					return true
 				}
 				if ce, ok := ast.Unparen(e).(*ast.CallExpr); ok {
-					if fn := originOf(Callee(info, ce)); fn != nil && fresh[fn] {
+					fn := originOf(Callee(info, ce))
+					if fn != nil && fresh[fn] {
 						return true
+					}
+					// `env.signal(env.raise(…))`: a function that returns its own argument returns
+					// a fresh value when handed one
+					if k, isPass := pass[fn]; isPass && fn != nil && k < len(ce.Args) && depth < 4 && !ce.Ellipsis.IsValid() {
+						return isFreshExpr(ce.Args[k], depth+1)
 					}
 					return false
 				}
